@@ -33,6 +33,8 @@ static std::string o5m_kind(const char* what) {
         {"uid out of range", "uid_range"},
         {"missing user name", "missing_user"},
         {"no null byte in user name", "no_nul_user"},
+        {"user name too long", "user_too_long"},
+        {"invalid bounding box", "invalid_bbox"},
         {"no null byte in tag key", "no_nul_key"},
         {"no null byte in tag value", "no_nul_value"},
         {"object version too large", "version_too_large"},
